@@ -312,6 +312,7 @@ fn enumerate(_tier: Tier, idx: u32, of: u32, cx: &mut Cx) -> CaseResult {
         }],
         opts: o,
         id_spread: 1,
+        headless_band: 0,
     };
     let sub = cx.dir("resume-200-hunks");
     std::fs::create_dir_all(&sub).unwrap();
